@@ -219,12 +219,21 @@ func (n *Node) SetAttribute(id ua.AttributeID, val *ua.DataValue) error {
 	return nil
 }
 
-func (n *Node) BrowseName() *ua.QualifiedName {
-	v := n.attr[ua.AttributeIDBrowseName]
-	if v == nil || v.Value.Value() == nil {
-		return &ua.QualifiedName{}
+// attrValue returns the value of an attribute or nil if there is none.
+// Attributes can be written by clients and may not have a value or a
+// value of the type the server expects.
+func attrValue(v *ua.DataValue) interface{} {
+	if v == nil || v.Value == nil {
+		return nil
 	}
-	return v.Value.Value().(*ua.QualifiedName)
+	return v.Value.Value()
+}
+
+func (n *Node) BrowseName() *ua.QualifiedName {
+	if v, ok := attrValue(n.attr[ua.AttributeIDBrowseName]).(*ua.QualifiedName); ok && v != nil {
+		return v
+	}
+	return &ua.QualifiedName{}
 }
 
 func (n *Node) SetBrowseName(s string) {
@@ -232,11 +241,10 @@ func (n *Node) SetBrowseName(s string) {
 }
 
 func (n *Node) DisplayName() *ua.LocalizedText {
-	v := n.attr[ua.AttributeIDDisplayName]
-	if v == nil || v.Value.Value() == nil {
+	val, ok := attrValue(n.attr[ua.AttributeIDDisplayName]).(*ua.LocalizedText)
+	if !ok || val == nil {
 		return &ua.LocalizedText{}
 	}
-	val := v.Value.Value().(*ua.LocalizedText)
 	val.UpdateMask()
 	return val
 }
@@ -248,11 +256,10 @@ func (n *Node) SetDisplayName(text, locale string) {
 }
 
 func (n *Node) Description() *ua.LocalizedText {
-	v := n.attr[ua.AttributeIDDescription]
-	if v == nil || v.Value.Value() == nil {
-		return &ua.LocalizedText{}
+	if v, ok := attrValue(n.attr[ua.AttributeIDDescription]).(*ua.LocalizedText); ok && v != nil {
+		return v
 	}
-	return v.Value.Value().(*ua.LocalizedText)
+	return &ua.LocalizedText{}
 }
 
 func (n *Node) SetDescription(text, locale string) {
@@ -264,8 +271,8 @@ func (n *Node) DataType() *ua.ExpandedNodeID {
 		log.Printf("n was nil!")
 		return ua.NewTwoByteExpandedNodeID(0)
 	}
-	v := n.attr[ua.AttributeIDDataType]
-	if v == nil || v.Value.Value() == nil {
+	v, ok := attrValue(n.attr[ua.AttributeIDDataType]).(*ua.ExpandedNodeID)
+	if !ok || v == nil {
 		// if we have a type definition, return that?
 		for i := range n.refs {
 			r := n.refs[i]
@@ -278,7 +285,7 @@ func (n *Node) DataType() *ua.ExpandedNodeID {
 		}
 		return ua.NewTwoByteExpandedNodeID(0)
 	}
-	return v.Value.Value().(*ua.ExpandedNodeID)
+	return v
 }
 
 func (n *Node) SetNodeClass(nc ua.NodeClass) {
@@ -286,13 +293,13 @@ func (n *Node) SetNodeClass(nc ua.NodeClass) {
 }
 
 func (n *Node) NodeClass() ua.NodeClass {
-	v := n.attr[ua.AttributeIDNodeClass]
-	if v == nil || v.Value.Value() == nil {
+	v := attrValue(n.attr[ua.AttributeIDNodeClass])
+	if v == nil {
 		return ua.NodeClassObject
 	}
-	vi32, ok := v.Value.Value().(int32)
+	vi32, ok := v.(int32)
 	if !ok {
-		vui32, ok := v.Value.Value().(uint32)
+		vui32, ok := v.(uint32)
 		if !ok {
 			return ua.NodeClassObject
 		}
@@ -365,7 +372,7 @@ func (n Node) Access(flag ua.AccessLevelType) bool {
 
 	access, err := n.Attribute(ua.AttributeIDUserAccessLevel)
 	if err == nil { // if we have a user access level, we need to check it.
-		val0 := access.Value.Value.Value()
+		val0 := attrValue(access.Value)
 		val, ok := val0.(uint8)
 		if !ok {
 			return false
@@ -376,7 +383,7 @@ func (n Node) Access(flag ua.AccessLevelType) bool {
 	}
 	access, err = n.Attribute(ua.AttributeIDAccessLevel)
 	if err == nil { // if we have an access level, we need to check it.
-		val0 := access.Value.Value.Value()
+		val0 := attrValue(access.Value)
 		val, ok := val0.(uint8)
 		if !ok {
 			return false
